@@ -257,7 +257,9 @@ bool Instance::rewind() {
         return false;
     }
     if (env->done) {
+        // the step that reached the end of the script only set the done flag; undo just that
         env->done = false;
+        return true;
     }
     return RewindScript(*env);
 }
